@@ -27,7 +27,7 @@ MC_INVARIANTS = ["Shape", "Terminates", "NeverStuck", "AcceptOnlyAtEndWithOneTre
                  "AcceptIffDerives", "TreeIsDerivation", "ErrorAtFirstNonViable", "ConsumedPrefixViable",
                  "ExpectedAreContinuations"]
 GEN_INVARIANTS = ["SentenceDerives", "DerivationStaysViable", "BudgetRespected", "NeedIsLeastYield",
-                  "LeftmostIsNonterminal", "MutantIsOneEditAway"]
+                  "LeftmostIsNonterminal", "OriginTracksTodo", "MutantIsOneEditAway"]
 
 TIERS = {
     # exhaustive family, sampled families [(nts, ts, max_rhs, max_prods, traces)], string bound for 2 / 3 terminals,
